@@ -13,7 +13,7 @@
    NOT PROVED: that equality of two invocations persists through rebuild, that slot sets only shrink,
    and the direction of the live-class / slot / symmetry components.  These are decided per run, after
    every operation, on the implementation and against the model. *)
-From SE Require Import EGraph.Model EGraph.ModelMachine EGraph.ModelFacts EGraph.UnionFindFacts EGraph.InvariantFacts.
+From SE Require Import EGraph.Model EGraph.ModelMachine EGraph.ModelFacts EGraph.UnionFindFacts EGraph.InvariantFacts EGraph.UnionInvariantFacts.
 From Coq Require Import Lia.
 
 Theorem C13_add_alloc_monotone : forall t s a s', add_expr t s = Ok (a, s') ->
@@ -80,3 +80,27 @@ Theorem C13_eq_reflexive_symmetric_insertion_only : forall terms ops hs s,
   (forall a b, covers s a -> covers s b -> exists x, eg_eq s a b = Ok x /\ eg_eq s b a = Ok x).
 Proof. exact insertion_only_invariants. Qed.
 Print Assumptions C13_eq_reflexive_symmetric_insertion_only.
+
+(* EQUALITY IS AN EQUIVALENCE RELATION ON EVERY REACHABLE STATE (EGraph/UnionInvariantFacts.v): the invariant eg_inv2
+   (ranked union-find, slot/group well-formedness of every class, syntactic nodes below the fresh counter) holds for
+   the empty e-graph and is preserved by add_expr and by eg_union through the whole of rebuild (move_to,
+   shrink_slots, gadd_set, handle_pending, congruence, self-symmetries), provided the invocations handed to union
+   cover their classes' slots.  That proviso is an executable check on the run (unions_coveredb: replays the
+   history and tests both handles of every union); it is evaluated for every explored history by the correspondence
+   (machine `egc`).  The remaining gap to an unconditional statement is add_covers_ok (the invocation returned by
+   add_expr covers its class), stated and used as a premise in UnionInvariantFacts.v (reachable_eq_equivalence). *)
+Theorem C13_eq_is_an_equivalence_on_reachable_states : forall terms ops hs s,
+  run_ops terms ops [] empty_egraph = Ok (hs, s) ->
+  unions_coveredb terms ops [] empty_egraph = true ->
+  eg_inv2 s /\
+  (forall a, covers s a -> eg_eq s a a = Ok true) /\
+  (forall a b, covers s a -> covers s b -> exists x, eg_eq s a b = Ok x /\ eg_eq s b a = Ok x) /\
+  (forall a b c, covers s a -> covers s b -> covers s c ->
+     eg_eq s a b = Ok true -> eg_eq s b c = Ok true -> eg_eq s a c = Ok true).
+Proof. exact reachable_checked_equivalence. Qed.
+Print Assumptions C13_eq_is_an_equivalence_on_reachable_states.
+
+Theorem C13_union_preserves_invariant : forall l r s b s', eg_inv2 s -> covers s l -> covers s r ->
+  eg_union l r s = Ok (b, s') -> eg_inv2 s' /\ ext s s'.
+Proof. exact inv_eg_union. Qed.
+Print Assumptions C13_union_preserves_invariant.
